@@ -50,11 +50,30 @@ func runC05(c *Ctx) {
 	// ---- R2: the version checkers: anonymous functions of the package initialiser with signature func(*KeyID) error
 	var checkers []*ssa.Function
 	if init := p.Func("init"); init != nil {
-		for _, a := range init.AnonFuncs {
-			sig := a.Signature
-			if sig.Params().Len() == 1 && sig.Results().Len() == 1 && isErrorType(sig.Results().At(0).Type()) {
-				if ptr, ok := sig.Params().At(0).Type().(*types.Pointer); ok && types.Identical(ptr.Elem(), kid) {
-					checkers = append(checkers, a)
+		// the functions (literals or named) stored into a map by the initialiser, of type func(*KeyID) error
+		seenChk := map[*ssa.Function]bool{}
+		for _, b := range init.Blocks {
+			for _, ins := range b.Instrs {
+				mu, ok := ins.(*ssa.MapUpdate)
+				if !ok {
+					continue
+				}
+				var a *ssa.Function
+				switch v := strip(mu.Value).(type) {
+				case *ssa.Function:
+					a = v
+				case *ssa.MakeClosure:
+					a, _ = v.Fn.(*ssa.Function)
+				}
+				if a == nil || a.Blocks == nil || seenChk[a] {
+					continue
+				}
+				sig := a.Signature
+				if sig.Params().Len() == 1 && sig.Results().Len() == 1 && isErrorType(sig.Results().At(0).Type()) {
+					if ptr, ok := sig.Params().At(0).Type().(*types.Pointer); ok && types.Identical(ptr.Elem(), kid) {
+						seenChk[a] = true
+						checkers = append(checkers, a)
+					}
 				}
 			}
 		}
@@ -256,8 +275,11 @@ func checkKeyidUnmarshal(c *Ctx, kid *types.Named) {
 	// the decoded struct: an Alloc of KeyID handed to json.Unmarshal
 	var dec *ssa.Alloc
 	var jStruct, jMap *ssa.Call
-	for _, call := range callsTo(fn, "encoding/json.Unmarshal") {
-		cv := call.(*ssa.Call)
+	for _, call := range w.callsToDeep(fn, "encoding/json.Unmarshal") {
+		cv, isCall := call.(*ssa.Call)
+		if !isCall {
+			continue
+		}
 		tgt := strip(cv.Call.Args[1])
 		if a, ok := tgt.(*ssa.Alloc); ok {
 			el := a.Type().(*types.Pointer).Elem()
@@ -272,9 +294,9 @@ func checkKeyidUnmarshal(c *Ctx, kid *types.Named) {
 		c.Unresolved("R3.gate", "the two json.Unmarshal calls (struct and map) in keyid.Unmarshal")
 		return
 	}
-	c.Check(jStruct.Call.Args[0] == jMap.Call.Args[0] && w.Expr(jStruct.Call.Args[0]) == "conv<[]byte>(p0)", "R3.gate", "Unmarshal|same bytes decoded twice", w.Pos(jMap.Pos()), "struct and key map are decoded from the input text", "the required-key map is not decoded from the same bytes as the struct")
+	c.Check(w.SameValue(fn, jStruct.Call.Args[0], jMap.Call.Args[0]) && w.Expr(jStruct.Call.Args[0]) == "conv<[]byte>(p0)", "R3.gate", "Unmarshal|same bytes decoded twice", w.Pos(jMap.Pos()), "struct and key map are decoded from the input text", "the required-key map is not decoded from the same bytes as the struct")
 	var chk *ssa.Call
-	for _, call := range callsIn(fn) {
+	for _, call := range w.callsInDeep(fn) {
 		if cv, ok := call.(*ssa.Call); ok && calleeName(cv) == "dynamic" {
 			chk = cv
 		}
@@ -282,18 +304,20 @@ func checkKeyidUnmarshal(c *Ctx, kid *types.Named) {
 	// the required-key loop
 	var keyLookup *ssa.Lookup
 	var reqLookup *ssa.Lookup
-	for _, b := range fn.Blocks {
-		for _, ins := range b.Instrs {
-			lk, ok := ins.(*ssa.Lookup)
-			if !ok || !lk.CommaOk {
-				continue
-			}
-			ex := w.Expr(lk.X)
-			if exprIsGlobalOfType(w, ex, keyidPkg, keyidRequiredTable) {
-				reqLookup = lk
-			}
-			if strings.HasPrefix(ex, "makemap<") || strings.HasPrefix(ex, "alloc<map[") {
-				keyLookup = lk
+	for _, tf := range w.Tree(fn) {
+		for _, b := range tf.Blocks {
+			for _, ins := range b.Instrs {
+				lk, ok := ins.(*ssa.Lookup)
+				if !ok || !lk.CommaOk {
+					continue
+				}
+				ex := w.Expr(lk.X)
+				if exprIsGlobalOfType(w, ex, keyidPkg, keyidRequiredTable) {
+					reqLookup = lk
+				}
+				if strings.HasPrefix(ex, "makemap<") || strings.HasPrefix(ex, "alloc<map[") {
+					keyLookup = lk
+				}
 			}
 		}
 	}
@@ -305,7 +329,7 @@ func checkKeyidUnmarshal(c *Ctx, kid *types.Named) {
 	// per-key lookup: key is element of reqKeys at a forward range index, map is the one decoded by jMap
 	okLoop := false
 	if ld, ok := keyLookup.Index.(*ssa.UnOp); ok && ld.Op == token.MUL {
-		if ia, ok := ld.X.(*ssa.IndexAddr); ok && ia.X == reqKeys && isForwardRangeIndex(ia.Index) {
+		if ia, ok := ld.X.(*ssa.IndexAddr); ok && w.SameValue(fn, ia.X, reqKeys) && isForwardRangeIndex(ia.Index) {
 			okLoop = true
 		}
 	}
@@ -318,11 +342,15 @@ func checkKeyidUnmarshal(c *Ctx, kid *types.Named) {
 	// a failed lookup returns a non-nil error
 	okVal := extractOfV(keyLookup, 1)
 	nMiss := 0
-	for _, r := range liveReturns(fn) {
+	loopFn := keyLookup.Parent()
+	if loopFn != fn {
+		c.Check(w.failurePropagates(fn, loopFn), "R3.gate", "Unmarshal|missing key => error", w.FnPos(loopFn), "the error of "+shortFn(loopFn)+" ends Unmarshal with an error", "the error of the required-key helper does not make Unmarshal fail")
+	}
+	for _, r := range liveReturns(loopFn) {
 		if v, known := f.KnownBool(r.Block(), okVal); known && !v {
 			nMiss++
 			good := true
-			for _, lf := range w.Leaves(r.Results[1], r) {
+			for _, lf := range w.Leaves(r.Results[len(r.Results)-1], r) {
 				if !w.NonNil(lf.Val, lf.Facts) {
 					good = false
 				}
@@ -332,7 +360,7 @@ func checkKeyidUnmarshal(c *Ctx, kid *types.Named) {
 	}
 	c.Floor("R3.gate", nMiss, 1, "error return for a missing required key")
 	// blocks on the ok==false edge must not continue the loop
-	for _, b := range fn.Blocks {
+	for _, b := range loopFn.Blocks {
 		if v, known := f.KnownBool(b, okVal); known && !v {
 			if !leadsOnlyToReturns(b, func(x *ssa.BasicBlock) bool { v2, k2 := f.KnownBool(x, okVal); return k2 && !v2 }) {
 				c.Bad("R3.gate", "Unmarshal|missing key ends decoding", w.Pos(b.Instrs[0].Pos()), "after a missing required key the decoder goes on")
@@ -362,7 +390,7 @@ func checkKeyidUnmarshal(c *Ctx, kid *types.Named) {
 				return false
 			}
 			la := lenArg(bin.Y)
-			return la != nil && la == reqKeys && isForwardRangeIndex(bin.X)
+			return la != nil && w.SameValue(fn, la, reqKeys) && isForwardRangeIndex(bin.X)
 		})
 		c.Check(done, "R3.gate", "Unmarshal|required-key loop exhausted", w.Pos(r.Pos()), "must-fact: range over the required keys ran to completion", "Unmarshal can succeed before every required key was looked up (loop left early)")
 		okChk := false
@@ -378,7 +406,7 @@ func checkKeyidUnmarshal(c *Ctx, kid *types.Named) {
 	}
 	c.Floor("R3.gate", n, 1, "successful return of Unmarshal")
 	// no field store into the decoded struct
-	stores := FieldStores(fn, dec)
+	stores := w.FieldStoresDeep(fn, dec)
 	c.Check(len(stores) == 0, "R3.gate", "Unmarshal|decoded struct not altered", w.FnPos(fn), "no field of the decoded KeyID is assigned in Unmarshal", "Unmarshal assigns fields of the decoded KeyID after decoding")
 }
 
